@@ -86,7 +86,7 @@ fn lookup(id: &str) -> Option<(&'static str, Gen, Exec)> {
         "C03" => Some(("C03", c03::generate, c03::exec)),
         "C14" => Some(("C14", c14::generate, c14::exec)),
         "C01" => Some(("C01", c01_generate, c01_exec)),
-        "C02" => Some(("C02", c02::generate, c02::exec)),
+        "C02" => Some(("C02", c02_generate, c02_exec)),
         "C10" => Some(("C10", c10::generate, c10::exec)),
         "C09" => Some(("C09", c09::generate, c09::exec)),
         "C04" => Some(("C04", c04_generate, c04_exec)),
@@ -106,13 +106,30 @@ fn c01_exec(toks: &[&str]) -> String {
     if toks.first() == Some(&"certd") { certd::exec(toks) } else { c01::exec(toks) }
 }
 
+fn c02_generate(ctx: &mut Ctx) {
+    c02::generate(ctx);
+    // the decoder of the envelope: hand-made variations of SignedData, SignerInfo, the signed attributes
+    let pool = pki::Pool::new(3);
+    certd::generate_cms_into(ctx, &c04::seeds(&pool), &c04::mutate_any, &|_| Vec::new());
+}
+
+fn c02_exec(toks: &[&str]) -> String {
+    if toks.first() == Some(&"cmsd") { certd::exec_cms(toks) } else { c02::exec(toks) }
+}
+
 fn c04_generate(ctx: &mut Ctx) {
     c04::generate(ctx);
     certd::generate_into(ctx, &c04::mutate_any, &c04::systematic);
+    let pool = pki::Pool::new(3);
+    certd::generate_cms_into(ctx, &c04::seeds(&pool), &c04::mutate_any, &c04::systematic);
 }
 
 fn c04_exec(toks: &[&str]) -> String {
-    if toks.first() == Some(&"certd") { certd::exec(toks) } else { c04::exec(toks) }
+    match toks.first() {
+        Some(&"certd") => certd::exec(toks),
+        Some(&"cmsd") => certd::exec_cms(toks),
+        _ => c04::exec(toks),
+    }
 }
 
 fn c11_generate(ctx: &mut Ctx) {
